@@ -39,8 +39,17 @@ func maxStoredVersion(db *badger.DB) uint64 {
 // checkNewCommitAbove commits a write to key k and asserts that its version exceeds every stored
 // version seen before, and that it is what a new read returns.
 func checkNewCommitAbove(c *core.Ctx, sig string, db *badger.DB, k []byte, tok string, wit any) {
+	checkNewCommitAboveFloor(c, sig, db, k, tok, wit, 0)
+}
+
+// checkNewCommitAboveFloor: floor is the largest version known to be stored from before the re-open
+// (the scan after the re-open reads at the new read timestamp and cannot see versions above it).
+func checkNewCommitAboveFloor(c *core.Ctx, sig string, db *badger.DB, k []byte, tok string, wit any, floor uint64) {
 	// a read transaction opened before the scan pins nothing it needs; the scan itself is at the newest ts
 	m := maxStoredVersion(db)
+	if floor > m {
+		m = floor
+	}
 	val := gen.Expand(tok, 40)
 	if err := db.Update(func(txn *badger.Txn) error { return txn.Set(k, val) }); err != nil {
 		c.Violation(sig+"|commit-error", err.Error(), wit)
@@ -205,7 +214,7 @@ func c11LoadCrash(c *core.Ctx, work string, idx int, r *rand.Rand) {
 // variants here; crash, Load and StreamWriter variants are run by C08, C24 and C26 with the same oracle).
 func C11(c *core.Ctx) {
 	c.Rule("driver histories (commits, flushes, compactions leaving data in memtable WALs, L0 and deeper levels) followed by clean close/re-open cycles and DropAll; after " +
-		"each, the maximum version over an InternalAccess+AllVersions scan is taken, a new transaction overwrites an existing key, and its version must exceed that maximum " +
+		"each, the maximum version over an InternalAccess+AllVersions scan (before Close and after Open) is taken, a new transaction overwrites an existing key, and its version must exceed that maximum " +
 		"and its value must be what the next read returns; Load-then-crash cases: a backup is loaded into a database (empty, or with a few own commits flushed or not), the live " +
 		"directory is copied as the image a killed process leaves, the image is opened and the same oracle runs, followed by more commits and a re-read; the same oracle runs after crash recovery (C08), Load (C24) and StreamWriter.Flush (C26); distinct = (options, " +
 		"kind of re-open, where the newest version lived: memtable WAL / L0 / deeper level)")
@@ -237,12 +246,26 @@ func C11(c *core.Ctx) {
 				_ = w.RandomCommit(0.1, 0)
 				w.Flush()
 			default:
-				_ = w.RandomCommit(0.1, 0)
+				if i%2 == 1 {
+					// the newest stored versions are tombstones that a compaction had to retain (a
+					// reader from before the deletes is open while it runs)
+					w.Flush()
+					w.OpenSnapshot()
+					var specs []drv.WriteSpec
+					for _, j := range w.R.Perm(len(w.Keys))[:2+w.R.Intn(4)] {
+						specs = append(specs, drv.WriteSpec{Key: w.Keys[j], Del: true})
+					}
+					_, _ = w.Commit(specs)
+				} else {
+					_ = w.RandomCommit(0.1, 0)
+				}
 				w.Flush()
 				for j := 0; j < 4 && w.CompactForce(0, 1); j++ {
 				}
+				w.CloseSnapshots()
 			}
 			for cy := 0; cy < 2; cy++ {
+				floor := maxStoredVersion(w.DB)
 				if err := w.DB.Close(); err != nil {
 					c.Violation("C11|close-error", err.Error(), nil)
 					return
@@ -256,7 +279,7 @@ func C11(c *core.Ctx) {
 				}
 				w.DB = db
 				k := w.Keys[w.R.Intn(len(w.Keys))]
-				checkNewCommitAbove(c, "C11|clean-reopen", w.DB, k, fmt.Sprintf("n%d.%d", i, cy), w.Witness())
+				checkNewCommitAboveFloor(c, "C11|clean-reopen", w.DB, k, fmt.Sprintf("n%d.%d", i, cy), w.Witness(), floor)
 				// keep the model in step
 				w.M.Put(string(k), modelVerTok(w.DB.VerifNextTxnTs()-1, fmt.Sprintf("n%d.%d", i, cy), 40))
 			}
